@@ -76,6 +76,11 @@ def rand_molecule(g, natom, pool, dmin=1.2, close_pair=False):
         if natom == 1 or d.min() >= dmin:
             break
     z = np.array([int(x) for x in g.choice(pool, natom)], dtype=int)
+    if natom >= 3 and g.random() < 0.5 and len(set(pool)) > 1:
+        # "any molecule": also element patterns like H-O-H, O-C-O (first and last atom alike, a different one in between)
+        z[-1] = z[0]
+        while z[1] == z[0]:
+            z[1] = int(g.choice(pool))
     return z, c
 
 
